@@ -100,10 +100,10 @@ func (r *Rand) Choose(xs ...string) string { return xs[r.Intn(len(xs))] }
 
 // Event is one observation at the boundary of the system under test.
 type Event struct {
-	Seq  int64          `json:"seq"`            // global logical clock
-	T    int64          `json:"t_us"`           // virtual microseconds since the case started
-	Kind string         `json:"kind"`           // event kind
-	F    map[string]any `json:"f,omitempty"`    // operands
+	Seq  int64          `json:"seq"`         // global logical clock
+	T    int64          `json:"t_us"`        // virtual microseconds since the case started
+	Kind string         `json:"kind"`        // event kind
+	F    map[string]any `json:"f,omitempty"` // operands
 }
 
 // Log is a concurrency-safe append-only event log with one logical clock.
@@ -176,7 +176,7 @@ func (l *Log) KindSignature() string {
 
 // Violation is one refutation of the property by a case.
 type Violation struct {
-	Key    string  `json:"key"`   // stable class of the failing case (known-findings key)
+	Key    string  `json:"key"` // stable class of the failing case (known-findings key)
 	Msg    string  `json:"msg"`
 	Index  int     `json:"index"`
 	Spec   any     `json:"spec,omitempty"`
@@ -419,25 +419,25 @@ type sample struct {
 
 // Report is what the harness hands to /verif/check.
 type Report struct {
-	Property           string           `json:"property"`
-	Tier               string           `json:"tier"`
-	Seed               uint64           `json:"seed"`
-	Evaluations        int              `json:"evaluations"`
-	Nontrivial         int              `json:"nontrivial"`
-	DistinctNontrivial int              `json:"distinct_nontrivial"`
-	Rule               string           `json:"rule"`
-	Exhaustive         bool             `json:"exhaustive"`
-	Assumptions        []string         `json:"assumptions"`
-	Samples            []sample         `json:"samples"`
-	Counters           map[string]int64 `json:"counters"`
-	Distinct           map[string]int   `json:"distinct"`
+	Property           string              `json:"property"`
+	Tier               string              `json:"tier"`
+	Seed               uint64              `json:"seed"`
+	Evaluations        int                 `json:"evaluations"`
+	Nontrivial         int                 `json:"nontrivial"`
+	DistinctNontrivial int                 `json:"distinct_nontrivial"`
+	Rule               string              `json:"rule"`
+	Exhaustive         bool                `json:"exhaustive"`
+	Assumptions        []string            `json:"assumptions"`
+	Samples            []sample            `json:"samples"`
+	Counters           map[string]int64    `json:"counters"`
+	Distinct           map[string]int      `json:"distinct"`
 	DistinctMembers    map[string][]string `json:"distinct_members,omitempty"` // up to 80 members of each set, sorted
-	EventKinds         map[string]int64 `json:"event_kinds"`
-	Violations         []Violation      `json:"violations"`
-	Inconclusive       []string         `json:"inconclusive"`
-	Stuck              []int            `json:"stuck"` // cases abandoned by the wall-clock watchdog
-	MinNontrivial      int              `json:"min_nontrivial"`
-	WallS              float64          `json:"wall_s"`
+	EventKinds         map[string]int64    `json:"event_kinds"`
+	Violations         []Violation         `json:"violations"`
+	Inconclusive       []string            `json:"inconclusive"`
+	Stuck              []int               `json:"stuck"` // cases abandoned by the wall-clock watchdog
+	MinNontrivial      int                 `json:"min_nontrivial"`
+	WallS              float64             `json:"wall_s"`
 }
 
 // caseWatchdog is the wall-clock budget of a single case (virtual-time cases
